@@ -4,6 +4,7 @@ package c11
 import (
 	"context"
 	"encoding/json"
+	"errors"
 	"fmt"
 	"io"
 	"net"
@@ -378,11 +379,18 @@ func TestRetryWindow(t *testing.T) {
 		if D > 2*I+100*time.Millisecond && rapid.Bool().Draw(rt, "comesBack") {
 			comeBack = time.Duration(rapid.IntRange(20, int((D-I-80*time.Millisecond)/time.Millisecond)).Draw(rt, "backAfterMs")) * time.Millisecond
 		}
+		// max_fails is normally out of reach (the passive check is only there to count attempts); when the upstream
+		// stays down, some cases let the very first failures take it out of rotation, so that the later attempts of the
+		// same connection find nothing to dial: the connection still fails with the last error it got, the refused dial
+		maxFails := 100000
+		if comeBack < 0 {
+			maxFails = []int{100000, 100000, 1, 2}[rapid.IntRange(0, 3).Draw(rt, "maxFails")]
+		}
 		u1 := newUpstream(rt, false)
 		defer u1.release()
 		h, cancel := loadProxy(rt, map[string]any{
 			"upstreams":      []map[string]any{{"dial": []string{u1.addr}}},
-			"health_checks":  map[string]any{"passive": map[string]any{"fail_duration": "30s", "max_fails": 100000}}, // only to count attempts
+			"health_checks":  map[string]any{"passive": map[string]any{"fail_duration": "30s", "max_fails": maxFails}},
 			"load_balancing": map[string]any{"try_duration": D.String(), "try_interval": I.String()},
 		})
 		defer cancel()
@@ -428,6 +436,16 @@ func TestRetryWindow(t *testing.T) {
 					hx.Fail(rt, "C11", "retry-too-long", "kept retrying far beyond try_duration + try_interval: %s", desc)
 				}
 				return
+			}
+			// "... and then fails with the last error": an attempt that finds no upstream available produces no error of
+			// its own once a dial has failed, so what comes back is the refused dial
+			var op *net.OpError
+			if attempts >= 1 && !(errors.As(err, &op) && op.Op == "dial") {
+				hx.Fail(rt, "C11", "retry-last-error", "%d dial(s) were refused, yet the connection failed with %q (%T) instead of the last dial error (max_fails=%d): %s", attempts, err, err, maxFails, desc)
+				return
+			}
+			if maxFails < 100000 {
+				hx.Case(hx.Hash("retry-out-of-rotation", D, I, maxFails), D > I, "C11/retry-after-upstream-left-rotation")
 			}
 			// attempts are at least try_interval apart: no more than elapsed/interval + 1 of them
 			if maxAttempts := int(el/I) + 1; attempts > maxAttempts || attempts < 1 {
